@@ -350,6 +350,7 @@ func runC18(r *core.Run) {
 		r.Violate("C18|harness|not-instrumented", "C18 must be run through ./vrun, which builds the instrumented binary (bin/vcheck18)", core.Case{Kind: "harness"})
 		return
 	}
+	r.WatchProgress(false) // this process only waits for its workers (each has its own deadline)
 	n := core.Workers()
 	results := make([]c18Result, n)
 	var wg sync.WaitGroup
